@@ -2240,6 +2240,13 @@ class BaseInterpreter(Generic[TContext, TEvent]):
                     data=self._resolve_output(final_state),
                     src=ancestor.id,
                 )
+                # 🔁 A `done.state` event sent while an event is being
+                #    processed is self-raised, exactly like `raise`. Count it
+                #    towards the raise-chain bound: an `onDone` that
+                #    re-completes its own state otherwise fed the run loop
+                #    forever without ever yielding to other tasks.
+                if getattr(self, "_processing", False):
+                    self._raise_depth = getattr(self, "_raise_depth", 0) + 1
                 await self.send(done_event)
                 # Per SCXML, only fire for the first completed ancestor.
                 return
